@@ -51,6 +51,12 @@ impl SyscallState {
         (self.brk_start, self.brk_length)
     }
 
+    /// Verification hook: put the brk bookkeeping into a given state
+    pub fn verif_set_brk(&mut self, start: u64, length: u64) {
+        self.brk_start = start;
+        self.brk_length = length;
+    }
+
     /// Verification hook: (write end -> read end, read end -> write end, read end -> buffered bytes), sorted by key
     #[allow(clippy::type_complexity)]
     pub fn verif_pipes(&self) -> (Vec<(u64, u64)>, Vec<(u64, u64)>, Vec<(u64, Vec<u8>)>) {
